@@ -1,8 +1,8 @@
 (* C08/Props.v — the property theorems, nothing else.
-   Model: C08/Model.v.  Proofs: Frame.v, PassA.v, PassB.v, PassC.v, PassD.v, PassE.v, PassF.v, Chunk.v, Live.v, Live2.v, Live3.v. *)
+   Model: C08/Model.v.  Proofs: Frame.v, PassA.v, PassB.v, PassC.v, PassD.v, PassE.v, PassF.v, PassG.v, Chunk.v, Live.v, Live2.v, Live3.v. *)
 From Coq Require Import List NArith ZArith Bool.
 Import ListNotations.
-Require Import Base.Wire Base.PyStr C08.Model C08.Frame C08.PassA C08.PassB C08.PassC C08.PassD C08.PassE C08.PassF C08.Chunk C08.Live C08.Live2 C08.Live3.
+Require Import Base.Wire Base.PyStr C08.Model C08.Frame C08.PassA C08.PassB C08.PassC C08.PassD C08.PassE C08.PassF C08.PassG C08.Chunk C08.Live C08.Live2 C08.Live3.
 
 (* For every configuration, every state satisfying the invariant (in particular
    the state right after a reset) and EVERY sequence of server messages
@@ -86,6 +86,44 @@ Theorem C08_ack_by_server_start :
    ack (fst r) = [] /\ existsb (fun o => match o with SendCred _ _ => true | _ => false end) (snd r) = false).
 Proof. split; [intros; apply run_tag_ack_outs|split; [intros c s; exact (proj1 (f_reset c [] s))|exact nak_is_not_ack]]. Qed.
 Print Assumptions C08_ack_by_server_start.
+
+(* "After a reconnect all of this state starts from scratch", for what is still
+   queued: stepQ is the bot with its fast queue (sendMsg queues, the driver
+   takes later; Irc.reset() empties it before queueing CAP LS / NICK / USER);
+   every queued line carries, as a ghost, the number of the connection it was
+   queued on.  For every configuration and every history of server messages
+   (any batching: several messages between two takes) and driver takes: every
+   line the driver is ever handed was queued on the connection it is sent on --
+   nothing queued before a reset (an ERROR reconnect inside a handler, or a
+   driver reset) is sent after it. *)
+Theorem C08_reset_drops_queue :
+  forall c na evs s n q, QI q ->
+  Forall (fun rec => Forall (fun x => fst x = fst rec) (snd rec)) (runQ c na (s, n, q) evs).
+Proof. exact taken_on_own_connection. Qed.
+Print Assumptions C08_reset_drops_queue.
+
+(* after a driver reset the queue is exactly the connect messages, CAP LS first *)
+Theorem C08_reset_queue_is_connect :
+  forall c na s n q, zombie s = false ->
+  let r := stepQ c na (s, n, q) IReset in
+  map snd (q_items (snd (fst (fst r)))) = filter is_line (routs (reset c s)) /\
+  hd_error (filter is_line (routs (reset c s))) = Some (Send s_CAP [s_LS; s_302]).
+Proof. exact reset_queue_is_connect. Qed.
+Print Assumptions C08_reset_queue_is_connect.
+
+(* non-vacuity: CAP ACK sasl and AUTHENTICATE + in one batch, then ERROR :Closing link: the queued AUTHENTICATE PLAIN
+   and credentials are dropped; the next take is CAP LS / NICK / USER of connection 1 *)
+Theorem C08_stale_credentials_dropped :
+  let c := Cfg [s_sasl; [98;97;116;99;104]] false [s_plain] [[65;65;65;65]] [] None false false true [104] 3 in
+  let evs := [QTake; QMsg (ICap [[42]; s_LS; s_sasl]); QTake; QMsg (ICap [[42]; [65;67;75]; s_sasl]); QMsg (IAuth [s_PLUS] true true);
+              QMsg (IError [s_closing]); QTake] in
+  map (fun rec => (fst rec, map snd (snd rec)))
+      (runQ c 2 (rstate (reset c (fresh c false)), Nk 2 false, Qst 0 (map (fun x => (0%nat, x)) (filter is_line (routs (reset c (fresh c false)))))) evs)
+  = [(0%nat, [Send s_CAP [s_LS; s_302]; Send s_NICK []; Send s_USER []]);
+     (0%nat, [Send s_CAP [s_REQ; s_sasl]]);
+     (1%nat, [Send s_CAP [s_LS; s_302]; Send s_NICK []; Send s_USER []])].
+Proof. exact stale_credentials_dropped. Qed.
+Print Assumptions C08_stale_credentials_dropped.
 
 (* the state after any reset satisfies the invariant: the theorem above applies
    to every connection *)
